@@ -528,6 +528,11 @@ func VerifyObjectCopyAccess(ctx context.Context, be backend.Backend, copySource 
 	if !found {
 		return s3err.GetAPIError(s3err.ErrInvalidCopySource)
 	}
+	// the source bucket is looked up below the gateway root: it has to be
+	// a single path element
+	if !backend.IsOpaqueIDValid(srcBucket) {
+		return s3err.GetAPIError(s3err.ErrInvalidCopySource)
+	}
 
 	// Get source bucket ACL
 	srcBucketACLBytes, err := be.GetBucketAcl(ctx, &s3.GetBucketAclInput{Bucket: &srcBucket})
